@@ -697,7 +697,7 @@ def run(tier: str, seed: int, replay=None) -> int:
         s = float(torch.tensor(math.exp(rng.uniform(math.log(1e-6), math.log(1e4))), dtype=torch.float32))
         traces.append(run_rampg(torch, DUCCIO, n, s))
         scen.append({"kind": "rampg", "n": n, "s": s, "nontrivial": True})
-    n_hist = 50000 if thorough else 2000
+    n_hist = 30000 if thorough else 2000
     for _ in range(n_hist):
         sc = random_hist(rng)
         traces.append(run_hist(torch, DUCCIO, sc))
